@@ -1,4 +1,4 @@
-import RsslVerif.Model.Overload
+import RsslVerif.Model.OverloadT
 import RsslVerif.Driver.Util
 /-! Line-protocol front end of the C16 model (`C16.resolve`, `C16.conv`); formats are described in
 `harness/src/c16.rs`. -/
@@ -79,22 +79,98 @@ def convCell (src dst : ETy) : String :=
      | .error _ => "panic"
      | .ok t => showETy t)
 
-/-- the optional 4th field (`D`: every candidate is also defined, in reverse order) does not change the
-    candidate set, so the model ignores it -/
-def handleResolve (cs az : String) : String :=
-  match sequenceOpt ((if cs.isEmpty then [] else cs.splitOn ";").map parseCand),
-        sequenceOpt ((if az.isEmpty then [] else az.splitOn ",").map parseETy) with
-  | some cands, some a =>
-    -- the literal transcription answers; `resolve` (what the theorems are about) must agree (Thm.C16.resolveLazy_eq_resolve)
-    let o := resolveLazy cands a
-    if o == resolve cands a then showOutcome o.normalize else "model-internal-mismatch"
+def parsePTy (m l : String) : Option PTy :=
+  match l.splitOn "." with
+  | ["t", k] => if m == "-" then k.toNat?.map .tvar else none
+  | ["vt", k, n] => if m == "-" then do pure (.tvec (← k.toNat?) (← n.toNat?)) else none
+  | ["mt", k, x, y] => if m == "-" then do pure (.tmat (← k.toNat?) (← x.toNat?) (← y.toNat?)) else none
+  | ["at", k, n] => if m == "-" then do pure (.tarr (← k.toNat?) (← n.toNat?)) else none
+  | _ => do pure (.conc ⟨← parseMods m, ← parseLayer l⟩)
 
-  | _, _ => "bad-request"
+def parseTParam (s : String) : Option TParam :=
+  match s.splitOn "/" with
+  | [io, m, l] => do
+    let io ← match io with
+      | "in" => some InputModifier.in | "out" => some .out | "inout" => some .inOut | _ => none
+    pure ⟨← parsePTy m l, io⟩
+  | _ => none
+
+def parseKinds (s : String) : Option (List TKind) :=
+  match s.toList with
+  | 't' :: ks => sequenceOpt (ks.map fun c => if c == 'T' then some TKind.type else if c == 'V' then some .value else none)
+  | _ => none
+
+/-- `<id>:<non_default>:<param>,..[:t<kinds>]` -/
+def parseTCand (s : String) : Option TCand :=
+  match s.splitOn ":" with
+  | [id, nd, ps] => do
+    let ps ← sequenceOpt ((if ps.isEmpty then [] else ps.splitOn ",").map parseTParam)
+    pure ⟨← id.toNat?, [], ps, ← nd.toNat?⟩
+  | [id, nd, ps, ks] => do
+    let ps ← sequenceOpt ((if ps.isEmpty then [] else ps.splitOn ",").map parseTParam)
+    pure ⟨← id.toNat?, ← parseKinds ks, ps, ← nd.toNat?⟩
+  | _ => none
+
+def parseTArg (s : String) : Option TArg :=
+  if s == "#" then some .const else
+  match s.splitOn "/" with
+  | [m, l] => do pure (.type ⟨← parseMods m, ← parseLayer l⟩)
+  | _ => none
+
+def showTArg : TArg → String
+  | .const => "#"
+  | .type t => showMods t.mod ++ "/" ++ showLayer t.layer
+
+/-- options field: comma separated; `X=<targ>+<targ>..` are the explicit template arguments of the call, everything
+    else (`D`, `P=<call path>`) changes how the candidates are declared, not which candidates there are -/
+def parseExplicit (opts : String) : Option (List TArg) :=
+  match (opts.splitOn ",").filter (·.startsWith "X=") with
+  | [] => some []
+  | [x] => sequenceOpt (((x.drop 2).toString.splitOn "+").map parseTArg)
+  | _ => none
+
+def TCand.toCand? (c : TCand) : Option Cand :=
+  if c.tkinds.isEmpty then
+    (sequenceOpt (c.params.map fun p => match p.pat with | .conc t => some (⟨t, p.io⟩ : Param) | _ => none)).map
+      fun ps => ⟨c.id, ps, c.nonDefault⟩
+  else none
+
+def showSelected (cands : List TCand) (explicit : List TArg) (a : List ETy) (id : Nat) : String :=
+  match cands.find? (·.id == id) with
+  | some c =>
+    if c.tkinds.isEmpty then "sel " ++ toString id
+    else match c.targs explicit a with
+      | some targs => "sel " ++ toString id ++ "<" ++ "+".intercalate (targs.map showTArg) ++ ">"
+      | none => "model-internal-mismatch"
+  | none => "model-internal-mismatch"
+
+def handleResolve (cs az opts : String) : String :=
+  match sequenceOpt ((if cs.isEmpty then [] else cs.splitOn ";").map parseTCand),
+        sequenceOpt ((if az.isEmpty then [] else az.splitOn ",").map parseETy),
+        parseExplicit opts with
+  | some cands, some a, some explicit =>
+    -- the literal transcription answers; the form the theorems are about must agree (Thm.C16.resolveGLazy_eq_resolveG)
+    -- outside the protocol's type language (an array of a non-scalar)
+    let unsupported := cands.any fun c =>
+      a.length ≤ c.params.length && c.nonDefault ≤ a.length &&
+        (match c.inst explicit a with | .error e => e.startsWith "unsupported" | _ => false)
+    if unsupported then "unsupported: array of a non-scalar" else
+    let o := resolveTLazy cands explicit a
+    if o != resolveT cands explicit a then "model-internal-mismatch" else
+    -- without templates this is the model of the first round (Thm.C16.resolveG_of_plain)
+    let plainOk := match sequenceOpt (cands.map TCand.toCand?) with
+      | some plain => explicit != [] || (resolveLazy plain a == o && resolve plain a == o)
+      | none => true
+    if !plainOk then "model-internal-mismatch" else
+    match o.normalize with
+    | .selected id => showSelected cands explicit a id
+    | o' => showOutcome o'
+  | _, _, _ => "bad-request"
 
 def handle (op : String) (args : List String) : String :=
   match op, args with
-  | "C16.resolve", [cs, az, _] => handleResolve cs az
-  | "C16.resolve", [cs, az] => handleResolve cs az
+  | "C16.resolve", [cs, az, opts] => handleResolve cs az opts
+  | "C16.resolve", [cs, az] => handleResolve cs az ""
   | "C16.conv", [src, dsts] =>
     match parseETy src, sequenceOpt ((dsts.splitOn " ").map parseETy) with
     | some s, some ds => " ".intercalate (ds.map (convCell s))
